@@ -767,6 +767,12 @@ def run(chk):
         chk.corr_fail("Corr.SortCorr.depth_case_ok (Py.Sort.depth_sort vs tempren --directory --recursive)", depth_meta[m])
     stats["model_cases"] = {"sort": len(sort_cases), "depth": len(depth_cases)}
 
+    # the whole-program model (Whole/*.v), on which this property's whole-program theorems rest, against the real command line
+    import whole as _whole
+    import random as _random
+    _ws = {}
+    _whole.whole_stream(chk, _random.Random(chk.seed * 7919 + 8), 60 if chk.tier == "quick" else 2500, _ws)
+    chk.notes["whole_program_tie"] = _ws
     chk.coverage["rule"] = (
         "one case = one run of tempren.cli.main() on a fresh tree: names from a pool with quotes, backslashes, digit runs "
         "of different lengths, non-ASCII, leading dots, template metacharacters; sizes with many ties; sort expression = "
